@@ -2,6 +2,7 @@ import DrummerVerif.Lemmas.C11
 import DrummerVerif.Lemmas.C11S
 import DrummerVerif.Lemmas.KStep
 import DrummerVerif.Bridge.Bridge
+import DrummerVerif.Lemmas.Quiet
 /-!
 # C11 — only stray replicas are killed, and kill requests stop once they are gone
 
@@ -120,6 +121,43 @@ example : KInv (fun _ => 3) (fun s => [100 * s + 1, 100 * s + 2, 100 * s + 3])
 
 example (l : Loop) : KSteps (fun _ => 3) (fun _ => []) l ((l.crash "h0").restart "h0") :=
   .tail _ _ _ (.tail _ _ _ (.refl l) (.crash l "h0")) (.restart _ "h0")
+
+/-! ### quiescence: a healed fleet stays healed and receives no request at all
+
+`Loop.Settled`: every view at its group's newest membership version, every running replica caught up with its group (and
+its shard has a view), nothing queued at a NodeHost, nothing scheduled, no stray recorded. `Loop.AllRunning`: every member
+of every group's newest membership runs on the NodeHost the membership names, and that NodeHost is up. `QuietStep`: a
+tick, a report of any NodeHost (reply lost or not), an execution, or a scheduling round (any draws, any map orders) taken
+at a moment when every member is classified healthy. `SameFleet`: same groups, and every address resolves to a NodeHost
+with the same replicas, data and power state. -/
+
+/-- a scheduling round over healthy views with no recorded stray issues nothing, consumes no draw, cannot fail -/
+theorem healthy_round_is_empty :
+    ∀ (d : DB) (cx : Ctx) (draws : List Nat), CtxExact d cx → DB.AllHealthy d → d.image.toKill = [] →
+      maintain cx draws = SRes.ok [] draws :=
+  @_root_.Drummer.healthy_round_is_empty
+
+/-- the timing condition: every member record has a positive report time at most the failure timeout old -/
+theorem recently_reported_is_healthy :
+    ∀ (d : DB), d.tick < 18446744073709551616 →
+      (∀ c ∈ d.image.shards, ∀ r ∈ c.replicas, 0 < r.tick ∧ r.tick ≤ d.tick ∧ d.tick - r.tick ≤ nodeHostTTL) →
+        DB.AllHealthy d :=
+  @_root_.Drummer.recently_reported_is_healthy
+
+/-- in a settled state a NodeHost's report tells Drummer nothing new, is answered with no request, and changes neither the
+views' versions nor the fleet -/
+theorem report_keeps_a_settled_fleet_settled :
+    ∀ (l l' : Loop) (a : Addr) (lost : Bool) (n : Nat), Loop.Settled l → Loop.report l a lost = Outcome.ok (l', n) →
+      Loop.Settled l' ∧ n = 0 ∧ SameFleet l l' :=
+  @_root_.Drummer.report_settled
+
+/-- **a healed fleet stays healed and receives nothing**: from a settled state in which every member is running, along
+ANY sequence of fault-free events, every member keeps running where it was, no request is ever queued at a NodeHost,
+nothing is scheduled and no stray is recorded (witness: `Props/WitnessQuiet`) -/
+theorem healed_fleet_stays_healed :
+    ∀ (l l' : Loop), Loop.Settled l → Loop.AllRunning l → QuietSteps l l' →
+      Loop.Settled l' ∧ Loop.AllRunning l' ∧ SameFleet l l' :=
+  @_root_.Drummer.healed_fleet_stays_healed
 
 end C11
 end Drummer
